@@ -191,11 +191,11 @@ def _alarm(signum, frame):
 def _observe(fn):
     """Run fn under a wall-clock alarm; return ('ok', value) | ('exc', type name)."""
     signal.signal(signal.SIGALRM, _alarm)
-    signal.setitimer(signal.ITIMER_REAL, 20.0)
+    signal.setitimer(signal.ITIMER_REAL, 5.0)
     try:
         return ("ok", fn())
     except _Timeout:
-        return ("hang", "no result within 20 s")
+        return ("hang", "no result within 5 s")
     except RecursionError:
         return ("exc", "RecursionError")
     except Exception as e:  # noqa: BLE001
@@ -210,11 +210,19 @@ _ORDERS = None
 _THOROUGH = False
 
 
+_REFUTED = [0]
+
+
 def _check_table(kinds_tuple):
     """One alias table: every definition order x every invoked line."""
     from xonsh.built_ins import XSH
     from xonsh.procs.specs import SubprocSpec
 
+    if _REFUTED[0] >= 40:
+        # this worker has already found 40 violating tables: the property is refuted, the remaining
+        # tables are skipped (slow failure modes - hangs caught by the alarm - would otherwise make the
+        # check run for hours on a broken tree)
+        return {"viols": [], "evals": 0, "nontrivial": 0, "skipped": 1}
     names = _NAMES
     table = dict(zip(names, kinds_tuple))
     viols = []
@@ -281,7 +289,9 @@ def _check_table(kinds_tuple):
                     break
         if exp_res is not None and len(exp_res) > len(stripped):
             nontrivial += 1
-    return {"viols": [v.to_json() for v in viols], "evals": n_eval, "nontrivial": nontrivial}
+    if viols:
+        _REFUTED[0] += 1
+    return {"viols": [v.to_json() for v in viols], "evals": n_eval, "nontrivial": nontrivial, "skipped": 0}
 
 
 def _init_worker():
@@ -349,6 +359,7 @@ def run(ctx):
     tables = list(itertools.product(kinds, repeat=len(names)))
     ctx.log(f"{len(kinds)} alias kinds/name -> {len(tables)} tables x {len(_ORDERS)} orders x {len(_LINES)} lines")
     res = common.pmap(_check_table, tables, ctx.jobs, chunk=64, init=_init_worker, seed=ctx.seed)
+    skipped = sum(r.get("skipped", 0) for r in res)
     evals = sum(r["evals"] for r in res)
     nontrivial = sum(r["nontrivial"] for r in res)
     for r in res:
@@ -362,7 +373,8 @@ def run(ctx):
         evaluations=evals + len(cyc),
         distinct_nontrivial=nontrivial,
         rule=f"all {len(tables)} assignments of {len(kinds)} alias kinds to names {names} (every graph shape incl. self-loops, 2/3-cycles, decorator prefixes, return_command links) x all {len(_ORDERS)} definition orders x {len(_LINES)} invoked lines through Aliases.get, plus SubprocSpec.build on first/last order; non-trivial = (table,line) pairs whose reference expansion is longer than the typed line; plus {len(cyc)} exec-alias cycle graphs executed for the run-time recursion clause",
-        exhaustive=True,
+        exhaustive=skipped == 0,
+        tables_skipped_after_refutation=skipped,
         tables=len(tables),
         definition_orders=len(_ORDERS),
         lines=len(_LINES),
